@@ -18,7 +18,7 @@ open EupsModel EupsModel.Setup
 theorem C01_dir_preserved (db : Db) (fuel : Nat) (fwd : Bool) (r : Request) (e : Setup.Env) (s' : St)
     (hok : DirOK db e)
     (h : (if fwd then runSetup db fuel r e else runUnsetup db fuel r e) = .ok s') : DirOK db s'.env := by
-  have key := setup_subjInv (r.cfg db) (fun _ _ => True) (DirOK db) (fun _ _ _ _ _ _ _ _ _ _ _ _ => trivial)
+  have key := setup_subjInv (r.cfg db) (fun _ _ => True) (DirOK db) (fun _ _ _ _ _ _ _ _ _ _ _ _ _ => trivial)
     (dirOK_subjInv (r.cfg db)) fuel
   cases fwd with
   | true => exact key true 0 false r.vro r.name r.version none (St.init e) s' trivial (by intro n d x h; simp [St.init, aget] at h) hok h
@@ -112,11 +112,11 @@ def ALATE : Str := [76]
 `a 1`: `envPrepend(PATH, $DIR/1); setupRequired(b); envPrepend(PATH, $DIR/2); envSet(L, $DIR)` -/
 def dbD17 : Db :=
   { decls := [
-      ⟨nTop, v1, [1], [(.always, .dep nA false false none none)]⟩,
-      ⟨nA, v1, [2], [(.always, .prepend PATH (.own [1]) false), (.always, .dep nB false false none none),
-                     (.always, .prepend PATH (.own [2]) false), (.always, .set ALATE (.own []))]⟩,
-      ⟨nB, v1, [3], [(.always, .dep nA false false (some (.explicit v2)) none)]⟩,
-      ⟨nA, v2, [4], [(.always, .prepend PATH (.own [1]) false)]⟩ ],
+      ⟨nTop, v1, [1], [(.always, .dep nA false false none none [])]⟩,
+      ⟨nA, v1, [2], [(.always, .prepend PATH [.own [1]] false), (.always, .dep nB false false none none []),
+                     (.always, .prepend PATH [.own [2]] false), (.always, .set ALATE (.own []))]⟩,
+      ⟨nB, v1, [3], [(.always, .dep nA false false (some (.explicit v2)) none [])]⟩,
+      ⟨nA, v2, [4], [(.always, .prepend PATH [.own [1]] false)]⟩ ],
     tags := [(tagCurrent, nTop, v1), (tagCurrent, nA, v1), (tagCurrent, nB, v1)] }
 
 def reqTop : Request := ⟨nTop, none, false, none, false, []⟩
@@ -138,11 +138,11 @@ theorem C01_nested_switch_witness :
 /-- `top → a → c 1`, `top → b → c 2` -/
 def dbDiamond : Db :=
   { decls := [
-      ⟨nTop, v1, [1], [(.always, .dep nA false false none none), (.always, .dep nB false false none none)]⟩,
-      ⟨nA, v1, [2], [(.always, .prepend PATH (.own [1]) false), (.always, .dep nC false false (some (.explicit v1)) none)]⟩,
-      ⟨nB, v1, [3], [(.always, .prepend PATH (.own [1]) false), (.always, .dep nC false false (some (.explicit v2)) none)]⟩,
-      ⟨nC, v1, [4], [(.always, .prepend PATH (.own [1]) false)]⟩,
-      ⟨nC, v2, [5], [(.always, .prepend PATH (.own [1]) false)]⟩ ],
+      ⟨nTop, v1, [1], [(.always, .dep nA false false none none []), (.always, .dep nB false false none none [])]⟩,
+      ⟨nA, v1, [2], [(.always, .prepend PATH [.own [1]] false), (.always, .dep nC false false (some (.explicit v1)) none [])]⟩,
+      ⟨nB, v1, [3], [(.always, .prepend PATH [.own [1]] false), (.always, .dep nC false false (some (.explicit v2)) none [])]⟩,
+      ⟨nC, v1, [4], [(.always, .prepend PATH [.own [1]] false)]⟩,
+      ⟨nC, v2, [5], [(.always, .prepend PATH [.own [1]] false)]⟩ ],
     tags := [(tagCurrent, nTop, v1), (tagCurrent, nA, v1), (tagCurrent, nB, v1), (tagCurrent, nC, v1)] }
 
 /-- the request succeeds, `c` ends at version 2 and no element of `c 1` is left -/
